@@ -481,6 +481,30 @@ func c07Body(c *mc.Ctx, b c07Base, keyName string) {
 			c.Fail(sig("verify-content-disagree"), "deviations %v: %s", names, why)
 		}
 	}
+	// soundness on one object: what Verify refused, Content on the same object refuses as well (and the other way round)
+	if mustReject && !verifyOK && !contentOK {
+		for _, order := range []string{"Verify,Content", "Content,Verify", "Verify,Verify,Content"} {
+			func() {
+				defer func() { recover() }()
+				e, err := signature.ParseEnvelope(b.media, env)
+				if err != nil {
+					return
+				}
+				for k, call := range strings.Split(order, ",") {
+					var err error
+					if call == "Verify" {
+						_, err = e.Verify()
+					} else {
+						_, err = e.Content()
+					}
+					if err == nil {
+						c.Fail(sig("accepted-nonconforming"), "deviations %v: %s on one object: call %d (%s) succeeds although separate objects refuse both", names, order, k+1, call)
+						return
+					}
+				}
+			}()
+		}
+	}
 	// coherence on one object: Verify, then Content, then Verify again on the same parsed envelope (reading must not change it)
 	if verifyOK && contentOK {
 		func() {
